@@ -92,10 +92,25 @@ func spec_shaped(rs FuncResults, n int) bool {
 //@   preserves pkg/types.funcResultsResolver. pkg/types.pkgInfo. golang.org/x/tools/go/packages. $syncmap:
 //@   note ASSUMED frame of the per-slot resolver (not verified: go/ast traversal through ast.Inspect callbacks): it never stores into a funcResultsResolver
 
-//@ func funcResultsResolver.resultsAtReturnOrAssignment
+//@ func StringifyNode
 //@   trusted
+//@   pure
+//@   note ASSUMED: go/format prints every node of a parsed file without error, so the panic in StringifyNode is unreachable for the expressions the resolver hands to it (expressions of the loaded syntax trees)
+
+//@ func funcResultsResolver.resultsAtReturnOrAssignment
+//@   props C14
+//@   requires r != nil && r.pkgInfo != nil && r.Package != nil && r.Package.TypesInfo != nil && r.u != nil
 //@   assigns *
 //@   preserves pkg/types.funcResultsResolver. pkg/types.pkgInfo. golang.org/x/tools/go/packages. $syncmap:
+//@   lit 1 nopanic
+//@   lit 1 requires r != nil && r.pkgInfo != nil && r.Package != nil && r.Package.TypesInfo != nil && r.u != nil
+//@   lit 1 assume forall i int :: 0 <= i && i < len(rhs) ==> rhs[i] != nil
+//@   note (lit 1 assume) go/ast: the expressions of a return statement / the right-hand sides of an assignment are non-nil
+//@   loop 1 invariant !stopped && r != nil && r.pkgInfo != nil && r.Package != nil && r.Package.TypesInfo != nil
+//@   loop 2 invariant !stopped && r != nil && r.pkgInfo != nil && r.Package != nil && r.Package.TypesInfo != nil
+//@   loop 3 invariant !stopped && r != nil && r.pkgInfo != nil && r.Package != nil && r.Package.TypesInfo != nil
+//@   note C14 no panic: for ANY slot `at` - also one beyond the expressions written (a closure argument with more results than the enclosing function forwards a multi-value call) - the lookup yields nothing instead of indexing out of range
+
 //@ func funcResultsResolver.resultsAt
 //@   props C14
 //@   requires r != nil && r.sig != nil && r.pkgInfo != nil && r.Package != nil && r.Package.TypesInfo != nil && r.u != nil
